@@ -11,8 +11,8 @@ out: `model=<obs;..> alt=<i,..> [impl=<obs;..> oracle=ok|bad@i:reason corr=ok|di
 `obs` of one neighbour list `l` of sample `i` = `len:nodup:selfFree:inRange:sorted distances` — the level at which
 property C02 determines the result.  The oracle is `Knn.isExactKnn` (the Bool form of the `IsExactKnn` the theorems
 are about) evaluated on the implementation's lists with distances recomputed here from the same exact inputs.
-`alt` lists the samples for which the second admissible outcome of the *current* code exists (≥ k+1 other samples
-coincide with the query: the query need not be among the k+1 selected, the list then has k+1 entries). -/
+`alt` lists the samples with ≥ k+1 other samples coinciding with them (the situation of the repaired defect
+F-KNN-DUP: the query need not be among the k+1 selected; diagnostic only). -/
 open TapkeeVerif TapkeeVerif.Util TapkeeVerif.Knn TapkeeVerif.VpTree TapkeeVerif.KnnIO
 
 def b2s (b : Bool) : String := if b then "1" else "0"
@@ -30,11 +30,8 @@ def reason (sp : Space) (k i : Nat) (l : List Nat) : String :=
 def coincident (sp : Space) (i : Nat) : Nat :=
   ((List.range sp.N).filter fun j => j ≠ i ∧ sp.dist i j ≤ sp.dist i i).length
 
-/-- second admissible outcome of the current brute / VP-tree code for sample `i` -/
+/-- ≥ k+1 other samples coincide with sample `i` -/
 def altAdmissible (sp : Space) (k i : Nat) : Bool := decide (k + 1 ≤ coincident sp i)
-
-def isAltObs (sp : Space) (k i : Nat) (l : List Nat) : Bool :=
-  l.length == k + 1 && decide l.Nodup && !l.contains i && l.all (· < sp.N) && l.all (fun j => sp.dist i j == sp.dist i i)
 
 def modelLists (sp : Space) (method : String) (k : Nat) (vs : List Nat) : List (List Nat) :=
   let pts := List.range sp.N
@@ -81,14 +78,12 @@ def answer (line : String) : String :=
       | some raw, some ids =>
         -- raw[r] = query :: candidates (result order of the batch query is not the sample order)
         let byQuery : List (Nat × List Nat) := raw.filterMap fun r => match r with | q :: c => some (q, c) | [] => none
-        let sel : List (Nat × Option (List Nat)) := byQuery.map fun (q, c) => (q, coverSelect q k c)
-        let wrap := firstBad sel fun _ (q, s) =>
-          match s with
-          | none => some "oob"
-          | some l => if ids.getD q [] == l then none else some s!"q{q}"
+        let sel : List (Nat × List Nat) := byQuery.map fun (q, c) => (q, coverSelect sp.dist q k c)
+        -- identical tie-breaking (std::pair's operator< = pairLt): the lists must agree entry by entry
+        let wrap := firstBad sel fun _ (q, l) => if ids.getD q [] == l then none else some s!"q{q}"
         let cq := firstBad byQuery fun _ (q, c) => if candidatesExact sp k q c then none else some s!"q{q}"
         let cover := if (byQuery.map (·.1)).mergeSort == pts then "ok" else "bad"
-        let mlists := pts.map fun i => ((sel.find? (·.1 == i)).bind (·.2)).getD []
+        let mlists := pts.map fun i => ((sel.find? (·.1 == i)).map (·.2)).getD []
         let oracle := firstBad ids fun i l => if isExactKnn sp.dist pts k i l then none else some (reason sp k i l)
         let ties := (byQuery.filter fun (_, c) => c.length > k + 1).length
         s!"model={showObs mlists} alt= impl={showObs ids} oracle={oracle} corr={wrap} wrap={wrap} cq={cq} queries={cover} ties={ties}"
@@ -103,11 +98,7 @@ def answer (line : String) : String :=
       | none => head ++ s!" mspec={mspec}"
       | some ids =>
         let oracle := firstBad ids fun i l => if isExactKnn sp.dist pts k i l then none else some (reason sp k i l)
-        let corr := firstBad (ids.zip ml) fun i (l, m) =>
-          if obs sp i l == obs sp i m then none
-          else if altAdmissible sp k i && (isAltObs sp k i l || isAltObs sp k i m) &&
-                  (isAltObs sp k i l || isExactKnn sp.dist pts k i l) then none
-          else some "obs"
+        let corr := firstBad (ids.zip ml) fun i (l, m) => if obs sp i l == obs sp i m then none else some "obs"
         let nl := if ids.length == sp.N then "" else " nlists=bad"
         head ++ s!" impl={showObs ids} oracle={oracle} corr={corr} mspec={mspec}{nl}"
 
